@@ -31,6 +31,7 @@ OPTIONS = {
     'use_enum_value': dict(use_enum_value=True),
 }
 OPTIONS_X = {
+    'truncate_second': dict(truncate_datetime='second'),
     'sd1_e': dict(significant_digits=1, number_format_notation='e'),
     'truncate_day': dict(truncate_datetime='day'),
     'truncate_hour': dict(truncate_datetime='hour'),
@@ -254,6 +255,13 @@ def run(ctx, impl_only=False):
         tr = ctx.rng.choice(['truncate_day', 'truncate_hour', 'truncate_datetime'])
         dz = ctx.rng.choice([None, 'tz_m5', 'tz_530', 'default_timezone'])
         cases.append((w(x), w(y), (tr,) if dz is None else (tr, dz)) + (('direct',) if wi < 2 else ()))      # root and dictionary value: compared by _diff_datetime itself
+    # times of day (and dates, timedeltas) under truncation: values that differ only below the unit, and values that differ above it
+    T_ = datetime.time
+    for (x, y) in [(T_(1, 2, 3, 400), T_(1, 2, 3, 900)), (T_(1, 2, 3), T_(1, 2, 50)), (T_(1, 2, 3), T_(1, 3, 3)), (T_(5, 0, 0, 1), T_(5, 0, 0)), (T_(23, 59, 59, 999999), T_(23, 59, 0)),
+                   (datetime.timedelta(seconds=5, microseconds=7), datetime.timedelta(seconds=5)), (datetime.date(2020, 1, 1), datetime.date(2020, 1, 2))]:
+        for w in (lambda v: v, lambda v: {'k': v}, lambda v: [v, 'x'], lambda v: {'k': (v, 1)}, lambda v: [{'k': v}, 0], lambda v: [v, v, 'q']):
+            for tr in ('truncate_datetime', 'truncate_hour', 'truncate_second', 'none'):
+                cases.append((w(x), w(y), (tr,)))
     # sets that hold two members an option identifies, one of them shared with the other side (the difference of sets is taken on the
     # normalised digests), at the root and as dictionary values
     for (x, y, nm) in [({'a', 'A', 'b'}, {'a', 'b'}, 'ignore_string_case'), ({'a', 'A', 'b'}, {'A', 'b'}, 'ignore_string_case'), ({'a', 'A'}, {'a', 'b'}, 'ignore_string_case'),
